@@ -28,6 +28,8 @@ import XotModel.Lemmas.Html5Pretty
 import XotModel.Lemmas.Html5PrettyWhere
 import XotModel.Lemmas.NormalizerFullwidth
 import XotModel.Lemmas.WriterHtml
+import XotModel.Lemmas.Html5PrettyBetween
+import XotModel.Lemmas.Html5Suppress
 
 namespace XotModel.Props
 open XotModel XotModel.Gen
@@ -954,5 +956,217 @@ example :
       = ("<!DOCTYPE html><div>\n  ", .err .io) ∧
     (fun r : Str × Outcome XotError Unit => (String.ofList r.1, r.2)) (serializeHtmlWriteW (.budget (some 13)) env p t [])
       = ("<!DOCTYPE html><div>\n  <p>a</p>\n</div>\n", .ok ()) := by decide
+
+/-! ## Part 5: the inserted whitespace stands between markup tokens; what the suppress list means
+
+`serialize_pretty` (html5_serializer.rs) writes, per event, `" ".repeat(indentation * 2)`, the token, `"\n"` —
+`(indentation, newline)` from `Pretty::prettify` (pretty.rs) with the HTML closures.  The decorated token stream
+below is the list `C19_pretty_tokens` flattens: `List.zip (htmlPrettyTrace …) l`, `l` the rendered tokens. -/
+
+/-- Every character the pretty machine adds is a space or a newline. -/
+theorem C19_pretty_adds_whitespace (n : Nat) :
+    (∀ ch ∈ htmlIndentBytes n, ch = ' ') ∧ htmlNewline = ['\n'] ∧ (htmlIndentBytes n).length = 2 * n := by
+  refine ⟨?_, rfl, ?_⟩
+  · intro ch h
+    simp only [htmlIndentBytes, htmlIndentUnit, List.mem_flatten, List.mem_replicate] at h
+    obtain ⟨l, ⟨_, rfl⟩, hc⟩ := h
+    simpa using hc
+  · simp [htmlIndentBytes, htmlIndentUnit, htmlIndentWidth, Nat.mul_comm]
+
+/-- Per event, EVERY tree, any state of the `Pretty` stack: indentation is written only in front of an event that
+    opens markup (`<name`, end tag, comment, PI), a newline only behind one that closes markup (`>`, end tag,
+    comment, PI).  In particular text, attribute and `xmlns` tokens are never decorated. -/
+theorem C19_pretty_token_kinds (c : HtmlCtx) (sup : List Nat) (t : Tree) (ps : PStack) (evs : List (Path × Output))
+    (x : (Nat × Bool) × Path × Output) (hx : x ∈ List.zip (htmlPrettyTrace c sup t ps evs) evs) :
+    (x.1.1 > 0 → x.2.2.opensMarkup = true) ∧ (x.1.2 = true → x.2.2.closesMarkup = true) := by
+  rw [htmlPrettyTrace_zip] at hx
+  obtain ⟨y, _, rfl⟩ := List.mem_map.mp hx
+  exact ⟨fun h => (hpb_indent_before c sup t _ _ _ h).1, fun h => (hpb_newline_after c sup t _ _ _ h).1⟩
+
+/-- **C19_pretty_only_whitespace** (the HTML counterpart of `C14_pretty_only_whitespace`).  On the trees the
+    indentation clause ranges over (`TextOk`: leaf kinds are leaves, no text directly under a document node —
+    well-formed documents and element-rooted subtrees), any start node, suppress list, serializer state: if the
+    pretty writer puts whitespace between two consecutive tokens `x1 x2` of a successful run (a newline behind
+    `x1` or indentation in front of `x2`), then
+    * `x1` closes markup and its text ends with `>`, `x2` opens markup, has no space flag and its text begins
+      with `<` — the one markup token without characters being the EMPTY end-tag token of a void element
+      (`C19_tags_end`; what that exception amounts to: `C19_pretty_void_element_boundary`);
+    * the stack between them (the entries of the open elements the whitespace lands in, `x2`'s own element
+      included for an end tag) is neither mixed nor in `xml:space="preserve"` scope; so NO open element strictly
+      above `x2`'s node has a text or inline (phrasing / unknown HTML) element child, is a formatted element
+      (`pre`, `script`, `style`, `title`, `textarea` in the HTML namespaces, any letter case) or matches the
+      suppress list (`C19_pretty_mixed_iff` reads both predicates off the tables).
+    So an HTML parser reads every inserted run as inter-element whitespace between two tags, comments or PIs. -/
+theorem C19_pretty_only_whitespace (c : HtmlCtx) (sup : List Nat) (t : Tree) (start : Path) (n : Tree)
+    (inScope : List (Nat × Nat)) (hat : t.at? start = some n) (hs : namespacesInScope t start = some inScope)
+    (hok : TextOk n) (s0 : HState) (l : List (Path × Output × OutputToken))
+    (hl : renderHtmlAll c t s0 (genOutputs t start) = .ok l)
+    (pre post : List ((Nat × Bool) × Path × Output × OutputToken)) (x1 x2 : (Nat × Bool) × Path × Output × OutputToken)
+    (hz : List.zip (htmlPrettyTrace c sup t [] (genOutputs t start)) l = pre ++ x1 :: x2 :: post)
+    (hw : x1.1.2 = true ∨ x2.1.1 > 0) :
+    (x1.2.2.1.closesMarkup = true ∧
+      (x1.2.2.2.text.getLast? = some '>' ∨
+        (∃ name, x1.2.2.1 = .endTag name ∧ c.h.void.matches c.env name = true) ∧ x1.2.2.2.text = [])) ∧
+    (x2.2.2.1.opensMarkup = true ∧ x2.2.2.2.space = false ∧
+      (x2.2.2.2.text.head? = some '<' ∨
+        (∃ name, x2.2.2.1 = .endTag name ∧ c.h.void.matches c.env name = true) ∧ x2.2.2.2.text = [])) ∧
+    ∃ rel, x2.2.1 = start ++ rel ∧
+      PStack.inMixed (hpentriesFor c sup x2.2.2.1 n rel) = false ∧
+      PStack.inSpacePreserve (hpentriesFor c sup x2.2.2.1 n rel) = false ∧
+      ∀ a name, OpenAbove n rel a → a.value = .element name → a.firstChild?.isSome = true →
+        htmlHasInlineChild c a = false ∧ htmlIsSuppressed c sup name = false :=
+  hpb_between_tokens_ok c sup t start n inScope hat hs hok s0 l hl pre post x1 x2 hz hw
+
+/-- The same for EVERY tree (no `TextOk`): each of the two tokens is a markup token as above or the token of a
+    text node that is NOT the child of an element (a text node directly under a document node, under a node that
+    should be a leaf, or the start node itself with children) — around a text node whose parent is an element the
+    stack holds that parent's `Mixed` entry, so nothing is ever inserted next to it. -/
+theorem C19_pretty_only_whitespace_any_tree (c : HtmlCtx) (sup : List Nat) (t : Tree) (start : Path) (n : Tree)
+    (inScope : List (Nat × Nat)) (hat : t.at? start = some n) (hs : namespacesInScope t start = some inScope)
+    (s0 : HState) (l : List (Path × Output × OutputToken))
+    (hl : renderHtmlAll c t s0 (genOutputs t start) = .ok l)
+    (pre post : List ((Nat × Bool) × Path × Output × OutputToken)) (x1 x2 : (Nat × Bool) × Path × Output × OutputToken)
+    (hz : List.zip (htmlPrettyTrace c sup t [] (genOutputs t start)) l = pre ++ x1 :: x2 :: post)
+    (hw : x1.1.2 = true ∨ x2.1.1 > 0) :
+    ((x1.2.2.1.closesMarkup = true ∧
+        (x1.2.2.2.text.getLast? = some '>' ∨
+          (∃ name, x1.2.2.1 = .endTag name ∧ c.h.void.matches c.env name = true) ∧ x1.2.2.2.text = [])) ∨
+      ∃ x rel node, x1.2.2.1 = .text x ∧ x1.2.1 = start ++ rel ∧ n.at? rel = some node ∧ node.value = .text x ∧
+        ∀ rel0 i a name, rel = rel0 ++ [i] → n.at? rel0 = some a → a.value ≠ .element name) ∧
+    ((x2.2.2.1.opensMarkup = true ∧ x2.2.2.2.space = false ∧
+        (x2.2.2.2.text.head? = some '<' ∨
+          (∃ name, x2.2.2.1 = .endTag name ∧ c.h.void.matches c.env name = true) ∧ x2.2.2.2.text = [])) ∨
+      ∃ x rel node, x2.2.2.1 = .text x ∧ x2.2.1 = start ++ rel ∧ n.at? rel = some node ∧ node.value = .text x ∧
+        ∀ rel0 i a name, rel = rel0 ++ [i] → n.at? rel0 = some a → a.value ≠ .element name) ∧
+    ∃ rel, x2.2.1 = start ++ rel ∧
+      PStack.inMixed (hpentriesFor c sup x2.2.2.1 n rel) = false ∧
+      PStack.inSpacePreserve (hpentriesFor c sup x2.2.2.1 n rel) = false :=
+  hpb_between_tokens c sup t start n inScope hat hs s0 l hl pre post x1 x2 hz hw
+
+/-- Nothing is written in front of the first token (the `Pretty` stack starts empty). -/
+theorem C19_pretty_first_token (c : HtmlCtx) (sup : List Nat) (t : Tree) (p : Path) (o : Output)
+    (rest : List (Path × Output)) :
+    (htmlPrettyTrace c sup t [] ((p, o) :: rest)).head?.map (·.1) = some 0 := by
+  simp only [htmlPrettyTrace, List.head?_cons, Option.map_some, Option.some.injEq]
+  unfold prettifyHtmlAt
+  cases t.at? p with
+  | none => rfl
+  | some node =>
+    cases o <;> simp [prettifyHtml, PStack.getIndentation, PStack.inMixed, PStack.inSpacePreserve]
+    split
+    · split <;> rfl
+    · rfl
+
+/-- The vocabulary of the examples of this part: `div p hr ul li` in no namespace (2 … 6), `g circle` in SVG. -/
+def c19WsEnv : Env :=
+  ⟨[[], xmlNs, svgNs], [[], ['x','m','l']],
+   [(['s','p','a','c','e'], 1), (['i','d'], 1), (['d','i','v'], 0), (['p'], 0), (['h','r'], 0), (['u','l'], 0),
+    (['l','i'], 0), (['g'], 2), (['c','i','r','c','l','e'], 2)]⟩
+
+/-- Non-vacuity of `C19_pretty_only_whitespace`: `<div><hr><p/></div>` satisfies `TextOk`; its decorated tokens
+    (decoration, text) — whitespace behind `>`, `</p>`, `</div>` and behind the EMPTY end-tag token of the void `hr`
+    (whose start tag was closed by the `>` just before it), indentation in front of `<hr`, `<p`. -/
+example : TextOk (.node (.element 2) [.node (.element 4) [], .node (.element 3) []]) := by
+  simp [TextOk, Tree.Forall, Tree.Forall.forallList, TextOkAt, Value.isLeafKind, Value.isText, Tree.value]
+
+example :
+    let t : Tree := .node (.element 2) [.node (.element 4) [], .node (.element 3) []]
+    let c := htmlCtx c19WsEnv ⟨some [], []⟩
+    (List.zip (htmlPrettyTrace c [] t [] (genOutputs t []))
+        ((renderHtmlAll c t (htmlInitState c t []) (genOutputs t [])).okValue?.getD [])).map
+      (fun x => (x.1, String.ofList x.2.2.2.text))
+    = [((0, false), "<div"), ((0, false), ""), ((0, true), ">"), ((1, false), "<hr"), ((0, false), ">"),
+       ((0, true), ""), ((1, false), "<p"), ((0, false), ">"), ((0, true), "</p>"), ((0, true), "</div>")] := by
+  decide
+
+/-- What the exception for the empty end-tag token of a VOID element amounts to (closed; `hr` is void and not
+    phrasing content).  A void element without children: the token before the empty one is its `>`.  A void element
+    WITH children (not valid HTML; the tree API allows it) is treated by `Pretty` like any element: with a text
+    child the newline behind the empty end tag follows the text directly (`<hr>x⏎`), with a comment child the
+    indentation of the empty end tag gives a whitespace-only line. -/
+theorem C19_pretty_void_element_boundary :
+    serializeHtmlString c19WsEnv ⟨some [], []⟩ (.node (.element 2) [.node (.element 4) [], .node (.element 3) []]) []
+      = .ok "<!DOCTYPE html><div>\n  <hr>\n  <p></p>\n</div>\n".toList ∧
+    serializeHtmlString c19WsEnv ⟨some [], []⟩
+        (.node (.element 2) [.node (.element 4) [.node (.text ['x']) []], .node (.element 3) []]) []
+      = .ok "<!DOCTYPE html><div>\n  <hr>x\n  <p></p>\n</div>\n".toList ∧
+    serializeHtmlString c19WsEnv ⟨some [], []⟩
+        (.node (.element 2) [.node (.element 4) [.node (.comment ['c']) []], .node (.element 3) []]) []
+      = .ok "<!DOCTYPE html><div>\n  <hr>\n    <!--c-->\n  \n  <p></p>\n</div>\n".toList := by decide
+
+/-- Why `TextOk` excludes text directly under a document node (a fragment): `Pretty` keeps no stack entry for the
+    document node, so in the fragment `<div></div>x` the newline behind `</div>` lands in front of the text. -/
+theorem C19_pretty_fragment_text_gets_newline :
+    serializeHtmlString c19WsEnv ⟨some [], []⟩ (.node .document [.node (.element 2) [], .node (.text ['x']) []]) []
+      = .ok "<!DOCTYPE html><div></div>\nx".toList := by decide
+
+/-! ### The suppress list -/
+
+/-- **What `html_matches_suppress` computes**, every suppress list, every element name.  The two `return false`
+    of the loop leave the whole search, so: for an element in the HTML namespaces (no namespace or `XHTML_NS`,
+    one class) only the listed names BEFORE the first listed name outside the HTML namespaces count, compared by
+    local name up to ASCII case; for an element outside the HTML namespaces only the FIRST listed name counts,
+    compared by id. -/
+theorem C19_suppress_exact (h : Html5Elements) (env : Env) (sup : List Nat) (name : Nat) :
+    htmlMatchesSuppress h env sup name =
+      if h.isHtmlNamespace (env.nsOfName name) then
+        (sup.takeWhile (fun s => h.isHtmlNamespace (env.nsOfName s))).any
+          (fun s => asciiLower (env.localName s) == asciiLower (env.localName name))
+      else sup.head? == some name :=
+  c19sup_exact h env sup name
+
+/-- **C19_suppress_semantics**: for a suppress list all of whose names are in the HTML namespaces the function is
+    "some listed name equals the element's name up to ASCII case and the HTML namespaces": the element is in an
+    HTML namespace and its lower-cased local name is the lower-cased local name of a listed name. -/
+theorem C19_suppress_semantics (h : Html5Elements) (env : Env) (sup : List Nat) (name : Nat)
+    (hall : ∀ s ∈ sup, h.isHtmlNamespace (env.nsOfName s) = true) :
+    htmlMatchesSuppress h env sup name =
+      (h.isHtmlNamespace (env.nsOfName name) &&
+        sup.any (fun s => asciiLower (env.localName s) == asciiLower (env.localName name))) ∧
+    (htmlMatchesSuppress h env sup name = true ↔
+      ∃ s ∈ sup, h.isHtmlNamespace (env.nsOfName s) = true ∧ h.isHtmlNamespace (env.nsOfName name) = true ∧
+        asciiLower (env.localName s) = asciiLower (env.localName name)) := by
+  have h1 := c19sup_html_list h env sup name hall
+  refine ⟨h1, ?_⟩
+  rw [h1]
+  simp only [Bool.and_eq_true, List.any_eq_true, beq_iff_eq]
+  constructor
+  · rintro ⟨hn, s, hs, he⟩; exact ⟨s, hs, hall s hs, hn, he⟩
+  · rintro ⟨s, hs, _, hn, he⟩; exact ⟨hn, s, hs, he⟩
+
+/-- The early exit, general form: a listed name outside the HTML namespaces that is not the element's own name
+    ends the search — whatever follows it in the list; and an element outside the HTML namespaces is matched by
+    the first listed name or not at all. -/
+theorem C19_suppress_early_exit_general (h : Html5Elements) (env : Env) (f : Nat) (rest sup : List Nat) (name : Nat) :
+    (h.isHtmlNamespace (env.nsOfName f) = false → name ≠ f → htmlMatchesSuppress h env (f :: rest) name = false) ∧
+    (h.isHtmlNamespace (env.nsOfName name) = false →
+      htmlMatchesSuppress h env sup name = (sup.head? == some name)) := by
+  refine ⟨fun hf hne => by simp [htmlMatchesSuppress, hf, hne], fun hn => ?_⟩
+  rw [c19sup_exact]; simp [hn]
+
+/-- **C19_suppress_early_exit**, closed witness (`c19WsEnv`: `ul` = 5 in no namespace, `g` = 7 in SVG): a non-HTML
+    name in front hides a later HTML name; alone, or in front of it, the HTML name matches; and a non-HTML name is
+    honoured in first position only.  The real crate does the same: the model is `html_matches_suppress` as
+    written, and the `html` suite's corpus serialises `<div><ul><li/></ul>…</div>` under exactly these lists and
+    compares the bytes with the model (harness/src/suite_html.rs, "C19_suppress_early_exit"). -/
+theorem C19_suppress_early_exit :
+    let c := htmlCtx c19WsEnv {}
+    htmlMatchesSuppress c.h c.env [7, 5] 5 = false ∧
+    htmlMatchesSuppress c.h c.env [5] 5 = true ∧ htmlMatchesSuppress c.h c.env [5, 7] 5 = true ∧
+    htmlMatchesSuppress c.h c.env [7, 5] 7 = true ∧ htmlMatchesSuppress c.h c.env [5, 7] 7 = false ∧
+    c.h.isHtmlNamespace (c.env.nsOfName 5) = true ∧ c.h.isHtmlNamespace (c.env.nsOfName 7) = false := by decide
+
+/-- The same seen in the output, `<div><ul><li/></ul><g><circle/></g></div>` with indentation: under `[ul]` and
+    `[ul, g]` the `ul` is written on one line and `g` is not; under `[g, ul]` it is the other way round. -/
+example :
+    let t : Tree := .node (.element 2) [.node (.element 5) [.node (.element 6) []], .node (.element 7) [.node (.element 8) []]]
+    serializeHtmlString c19WsEnv ⟨some [5], []⟩ t [] = .ok "<!DOCTYPE html><div>\n  <ul><li></li></ul>\n  <g xmlns=\"http://www.w3.org/2000/svg\">\n    <circle></circle>\n  </g>\n</div>\n".toList ∧
+    serializeHtmlString c19WsEnv ⟨some [5, 7], []⟩ t [] = serializeHtmlString c19WsEnv ⟨some [5], []⟩ t [] ∧
+    serializeHtmlString c19WsEnv ⟨some [7, 5], []⟩ t [] = .ok "<!DOCTYPE html><div>\n  <ul>\n    <li></li>\n  </ul>\n  <g xmlns=\"http://www.w3.org/2000/svg\"><circle></circle></g>\n</div>\n".toList := by
+  decide +kernel
+
+/-- `C19_suppress_semantics` is not vacuous: `[ul, div]` is a list of HTML names. -/
+example : ∀ s ∈ [5, 2], (htmlCtx c19WsEnv {}).h.isHtmlNamespace ((htmlCtx c19WsEnv {}).env.nsOfName s) = true := by
+  decide
 
 end XotModel.Props
